@@ -246,7 +246,8 @@ def main(run):
     run.rule = ("exhaustive: every draw combination (cut points, per-locus swap masks, swap indices, sample pairs, "
                 "inversion indices) for lengths 2..4 (quick) / 2..5 (thorough), equal and unequal lengths, every pair of "
                 "permutations of size <= 3 (quick) / <= 4 (thorough) plus identity x all permutations one size up; "
-                "random: lengths up to 30 with seeded draws, indpb in {0, 1, dyadics, random floats}, scalar and per-gene "
+                "random: lengths up to 30 with seeded draws (plus a few individuals of length 65, 129, 200/300 per operator), "
+                "indpb in {0, 1, dyadics, random floats}, scalar and per-gene "
                 "bounds incl. low = up and negative, list / array.array / numpy (element-wise operators only) individuals; "
                 "error branches (sizes 0, 1, short bound sequences) and non-permutation inputs of the permutation "
                 "operators are corresponded only. A case is distinct by operator, container kind, inputs and draws; "
@@ -831,6 +832,27 @@ def main(run):
                     up = [max(x, low) for x in up]
             mut_case(op, rng.choice(kinds_elem), p, seed=seed, indpb=rand_pb(), low=low, up=up)
 
+    # ---- long individuals (paths that depend on the size; cheap: a handful per operator)
+    for n in (65, 129, run.scale(200, 300)):
+        for rep in range(run.scale(1, 4)):
+            seed = rng.randrange(10 ** 9)
+            q1, q2 = list(range(n)), list(range(n))
+            rng.shuffle(q1)
+            rng.shuffle(q2)
+            g1, g2 = [rng.randint(-9, 9) for _ in range(n)], [rng.randint(-9, 9) for _ in range(n + rep)]
+            for op in ("cxOnePoint", "cxTwoPoint", "cxMessyOnePoint"):
+                cx_case(op, rng.choice(kinds_slice), g1, g2, seed=seed)
+            cx_case("cxUniform", rng.choice(kinds_elem), g1, g2, seed=seed, indpb=rng.choice([0.5, 1.0, 0.9]))
+            es_case(rng.choice(kinds_slice), g1, q1, g2, list(range(len(g2))), seed=seed)
+            for op in ("cxPartialyMatched", "cxOrdered"):
+                cx_case(op, rng.choice(kinds_elem), q1, q2, seed=seed)
+            cx_case("cxUniformPartialyMatched", rng.choice(kinds_elem), q1, q2, seed=seed, indpb=rng.choice([0.5, 1.0, 0.1]))
+            mut_case("mutShuffleIndexes", rng.choice(kinds_elem), q1, seed=seed, indpb=rng.choice([0.5, 1.0, 0.9]))
+            mut_case("mutInversion", rng.choice(kinds_slice), q2, seed=seed)
+            mut_case("mutFlipBit", "list", None, seed=seed, indpb=rng.choice([0.5, 1.0]), genes=[rng.randint(0, 1) for _ in range(n)])
+            mut_case("mutUniformInt", rng.choice(kinds_elem), [0] * n, seed=seed, indpb=rng.choice([0.5, 1.0]), low=-4,
+                     up=[rng.randint(-4, 9) for _ in range(n)])
+
     # ================================================================== hardening round (HARDENING.md)
     EQ = 0.5                                 # a draw equal to the threshold indpb = 0.5 (`<` must not select it)
     TOP = 1.0 - 2.0 ** -53                   # the largest value random() can return
@@ -1005,16 +1027,18 @@ def main(run):
             # which of the two disagrees with the implementation?
             try:
                 sub = failing[:400]
-                nd = len(run.disagreements)
+                nd, ntr = len(run.disagreements), run.traces
                 bm = run.correspond("diagmodel", "C09", [terms[i] for i in sub], [cases[i] for i in sub], check="check")
                 bg = run.correspond("diagregen", "C09", [terms[i] for i in sub], [cases[i] for i in sub], check="check_gen",
                                     requires=["From DV Require Import Corr.C09_gen."])
                 del run.disagreements[nd:]
+                run.traces = ntr
                 run.notes.append("diagnosis on %d disagreeing cases: the hand-written model disagrees with the implementation on %d, "
-                                 "the regenerated definitions on %d%s" % (
+                                 "the regenerated definitions on %d%s%s" % (
                                      len(sub), len(bm), len(bg),
                                      " (the source changed meaning: the regenerated definitions follow it, the model does not)"
-                                     if bm and not bg else ""))
+                                     if bm and not bg else "",
+                                     " (refused functions are evaluated through their model alias)" if refused else ""))
                 run.extra_cov["diagnosis"] = {"cases": len(sub), "model_disagrees": len(bm), "regenerated_disagrees": len(bg)}
             except Exception as e:  # noqa
                 run.notes.append("diagnosis step failed: %r" % (e,))
